@@ -2043,6 +2043,12 @@ def truncate_json_overflow(data):
     the JSON limits for integers, i.e. (-2^53, 2^53 - 1], in case the values are implicitly
     converted during serialization.
     """
+    if isinstance(data, np.ndarray) and data.ndim == 0:
+        data = data[()]  # 0-d arrays are scalars, not iterables
+    if isinstance(data, np.integer):
+        data = int(data)  # numpy integers are not instances of int
+    elif isinstance(data, np.floating) and not isinstance(data, float):
+        data = float(data)  # float32 / float16 (np.float64 already is a float)
     if isinstance(data, collections.abc.Mapping):
         return {k: truncate_json_overflow(v) for k, v in data.items()}
     elif isinstance(data, collections.abc.Iterable) and not isinstance(data, str):
